@@ -355,32 +355,7 @@ namespace smt
 
     SMT_EXPORT std::pair<I, I> idl_theory::distance(const lin &from, const lin &to) const
     {
-        lin expr = from - to;
-        switch (expr.vars.size())
-        {
-        case 0:
-            return std::make_pair(expr.known_term.numerator(), expr.known_term.numerator());
-        case 1:
-        {
-            expr = expr / expr.vars.cbegin()->second;
-            if (!is_integer(expr.known_term))
-                throw std::invalid_argument("not a valid integer difference logic constraint..");
-            return distance(expr.vars.cbegin()->first, 0);
-        }
-        case 2:
-        {
-            expr = expr / expr.vars.cbegin()->second;
-            auto it = expr.vars.cbegin();
-            const auto [v0, c0] = *it++;
-            assert(c0 == rational::ONE);
-            const auto [v1, c1] = *it;
-            if (c1 != -rational::ONE || !is_integer(expr.known_term))
-                throw std::invalid_argument("not a valid real difference logic constraint..");
-            return distance(v0, v1);
-        }
-        default:
-            throw std::invalid_argument("not a valid real difference logic constraint..");
-        }
+        return bounds(to - from); // the bounds of 'to - from'..
     }
 
     SMT_EXPORT bool idl_theory::equates(const lin &l0, const lin &l1) const
